@@ -1,6 +1,7 @@
 package server
 
 import (
+	"encoding/hex"
 	"errors"
 	"fmt"
 	"io"
@@ -287,11 +288,11 @@ func (s *Server) getQueueCandidates(d *commandDetails) []*Hook {
 
 func (s *Server) queueHooks(d *commandDetails) error {
 	// Create the slices that will store all messages and hooks
-	// channel messages keep the name of their channel next to them: the name
+	// messages keep the name of their channel or hook next to them: the name
 	// inside the JSON text is not the name when it is not valid UTF-8
 	type chanMsg struct{ name, msg string }
 	var cmsgs []chanMsg
-	var wmsgs []string
+	var wmsgs []chanMsg
 	var whooks []*Hook
 
 	// Compile a slice of potential hook recipients
@@ -306,7 +307,9 @@ func (s *Server) queueHooks(d *commandDetails) error {
 					cmsgs = append(cmsgs, chanMsg{hook.Name, m})
 				}
 			} else {
-				wmsgs = append(wmsgs, msgs...)
+				for _, m := range msgs {
+					wmsgs = append(wmsgs, chanMsg{hook.Name, m})
+				}
 				whooks = append(whooks, hook)
 			}
 		}
@@ -324,7 +327,9 @@ func (s *Server) queueHooks(d *commandDetails) error {
 		})
 	}
 	if len(wmsgs) > 1 {
-		sortMsgs(wmsgs)
+		sort.SliceStable(wmsgs, func(i, j int) bool {
+			return lessMsgs(wmsgs[i].msg, wmsgs[j].msg)
+		})
 	}
 
 	// Publish all channel messages if any exist
@@ -336,10 +341,10 @@ func (s *Server) queueHooks(d *commandDetails) error {
 
 	// Queue the webhook messages in the buntdb database
 	err := s.qdb.Update(func(tx *buntdb.Tx) error {
-		for _, msg := range wmsgs {
+		for _, m := range wmsgs {
 			s.qidx++ // increment the log id
-			key := hookLogPrefix + uint64ToString(s.qidx)
-			_, _, err := tx.Set(key, msg, hookLogSetDefaults)
+			key := hookLogKey(s.qidx, m.name)
+			_, _, err := tx.Set(key, m.msg, hookLogSetDefaults)
 			if err != nil {
 				return err
 			}
@@ -403,6 +408,37 @@ func msgDetectCode(detect string) int {
 func stringToUint64(s string) uint64 {
 	n, _ := strconv.ParseUint(s, 10, 64)
 	return n
+}
+
+// hookLogKey is the queue key of a notification: the log id, then the name of
+// the hook it is for. The name inside the notification cannot tell two hooks
+// apart whose names differ only in bytes that are not valid UTF-8.
+func hookLogKey(idx uint64, hookName string) string {
+	return hookLogPrefix + uint64ToString(idx) + ":" +
+		hex.EncodeToString([]byte(hookName))
+}
+
+// hookLogKeyIsFor tells whether a queue key belongs to the named hook. Keys
+// written before the name was part of the key belong to whoever the
+// notification names.
+func hookLogKeyIsFor(key, hookName string) bool {
+	if !strings.HasPrefix(key, hookLogPrefix) {
+		return false
+	}
+	rest := key[len(hookLogPrefix):]
+	if i := strings.IndexByte(rest, ':'); i != -1 {
+		return rest[i+1:] == hex.EncodeToString([]byte(hookName))
+	}
+	return true
+}
+
+// hookLogKeyIdx returns the log id of a queue key
+func hookLogKeyIdx(key string) uint64 {
+	rest := key[len(hookLogPrefix):]
+	if i := strings.IndexByte(rest, ':'); i != -1 {
+		rest = rest[:i]
+	}
+	return stringToUint64(rest)
 }
 
 // Converts a uint to a string
